@@ -39,13 +39,18 @@ def mk_cases(cid, nums, conns, kw, rng, origin, lo_shift=True):
     """One abstract list -> three concrete cases (find_sec, PLSSDesc, Tract lots)."""
     k = len(nums)
     cases = []
-    for flavour in ("find_sec", "plss", "lots", "ctx_lots"):
-        top = 99 if flavour not in ("lots", "ctx_lots") else 999
+    for flavour in ("find_sec", "plss", "lots", "ctx_lots", "div_lots"):
+        top = 99 if flavour not in ("lots", "ctx_lots", "div_lots") else 999
         d = rng.randint(0, top - max(nums)) if lo_shift else 0
         ns = [n + d for n in nums]
         if flavour == "lots":
             text = render_list(ns, conns, kw, LOT_WORDS, LOT_REPEAT, rng)
             args = {"text": text, "flavour": flavour}
+        elif flavour == "div_lots":
+            # the list as the lots of a division ('N/2 of Lots 1 - 3'): the lot names carry the division, the integer
+            # lot numbers do not
+            text = render_list(ns, conns, kw, LOT_WORDS, LOT_REPEAT, rng)
+            args = {"text": rng.choice(["N/2 of ", "S½ of ", "E/2 ", "W/2NW/4 of ", "North Half of "]) + text, "flavour": flavour}
         elif flavour == "ctx_lots":
             # the list after an earlier lot and an aliquot; the earlier lot is written like the beginning of the list
             # ('Lots 1, SE/4NE/4, Lots 10 - 12'), so that a parser working on the text of a match, not its position, trips
@@ -63,7 +68,7 @@ def mk_cases(cid, nums, conns, kw, rng, origin, lo_shift=True):
                 block = rng.choice(BLOCKS)
                 args.update(prefix="T154N-R97W " if rng.random() < 0.7 else "Township 154 North, Range 97 West, ",
                             suffix=": " + block, block=block)
-        cases.append({"id": "%s%s" % (cid, flavour[0]), "kind": "c05", "origin": origin,
+        cases.append({"id": "%s%s" % (cid, flavour[0] if flavour != "div_lots" else "d"), "kind": "c05", "origin": origin,
                       "abs": {"nums": ns, "conns": list(conns), "kw": [bool(x) for x in kw]},
                       "args": args})
     return cases
